@@ -23,11 +23,15 @@ class Ctx:
         self.strings = {}  # literal -> int id
         self.ufs = {}
         self.fact_keys = set()
+        self.defines = {}
+        self.rnd_used = False
 
     def fresh(self, base="t"):
         return "%s!%d" % (base, next(self.counter))
 
-    def add_fact(self, f, key=None):
+    def add_fact(self, f, key=None, defines=None):
+        """defines: names of the fresh symbols this fact defines; such a fact is only relevant to a query whose
+        cone of influence already contains one of them (dropping facts is always sound)."""
         if key is not None:
             if key in self.fact_keys:
                 return
@@ -36,6 +40,8 @@ class Ctx:
             bs = [b for grp in self.binders for b in grp]
             f = z3.ForAll(bs, f)
         self.facts.append(f)
+        if defines:
+            self.defines[f.get_id()] = set(defines)
 
     def note(self, kind, where, text):
         self.notes.append((kind, where, text))
@@ -81,9 +87,10 @@ def _real(x):
 class N:
     """Scalar number: r (Int or Real term), t (None = finite, or Int tag term)."""
 
-    __slots__ = ("r", "t")
+    __slots__ = ("r", "t", "hint")
 
-    def __init__(self, r, t=None):
+    def __init__(self, r, t=None, hint=None):
+        self.hint = hint  # 'lo': t in {FIN, NINF} (a lower bound); 'hi': t in {FIN, PINF} (an upper bound)
         if isinstance(r, bool):
             r = z3.IntVal(1 if r else 0)
         elif isinstance(r, int):
@@ -222,6 +229,8 @@ def n_ge(a, b):
 def n_ite(c, a, b):
     if a is b:
         return a
+    if a.hint is not None and a.hint == b.hint:
+        return N(z3.If(c, _real(a.r), _real(b.r)), _simp_tag(z3.If(c, a.tag(), b.tag())), a.hint)
     if a.t is None and b.t is None:
         ra, rb = a.r, b.r
         if z3.is_int(ra) != z3.is_int(rb):
@@ -244,6 +253,10 @@ def n_isfinite(a):
 
 def n_minimum(a, b):
     """np.minimum: NaN-propagating."""
+    if a.t is None and b.t is not None and b.hint == "hi":
+        return N(z3.If(z3.And(b.t == FIN, _real(b.r) < _real(a.r)), _real(b.r), _real(a.r)))
+    if b.t is None and a.t is not None and a.hint == "hi":
+        return n_minimum(b, a)
     if a.t is None and b.t is None:
         ra, rb = a.r, b.r
         if z3.is_int(ra) != z3.is_int(rb):
@@ -255,6 +268,10 @@ def n_minimum(a, b):
 
 
 def n_maximum(a, b):
+    if a.t is None and b.t is not None and b.hint == "lo":
+        return N(z3.If(z3.And(b.t == FIN, _real(b.r) > _real(a.r)), _real(b.r), _real(a.r)))
+    if b.t is None and a.t is not None and a.hint == "lo":
+        return n_maximum(b, a)
     if a.t is None and b.t is None:
         ra, rb = a.r, b.r
         if z3.is_int(ra) != z3.is_int(rb):
@@ -272,17 +289,23 @@ def n_abs(a):
 
 
 def n_round(a):
-    """np.round / round: integer-valued, |round(x)-x| <= 1/2 (tie rule not modelled)."""
+    """np.round / round: integer-valued, |round(x)-x| <= 1/2 (tie rule not modelled); a function of its argument."""
     if a.is_int():
         return a
     c = ctx()
-    nm = c.fresh("rnd")
-    k = z3.Int(nm)
-    ra = _real(a.r)
-    c.add_fact(z3.And(2 * z3.ToReal(k) - 1 <= 2 * ra, 2 * ra <= 2 * z3.ToReal(k) + 1))
+    c.rnd_used = True
+    f = c.uf("rnd", z3.RealSort(), z3.IntSort())
+    k = f(_real(a.r))
     if a.t is None:
         return N(z3.ToReal(k))
     return N(z3.ToReal(k), a.t)
+
+
+def rnd_axioms():
+    c = ctx()
+    f = c.uf("rnd", z3.RealSort(), z3.IntSort())
+    x = z3.Real("rndx")
+    return [z3.ForAll([x], z3.And(2 * z3.ToReal(f(x)) - 1 <= 2 * x, 2 * x <= 2 * z3.ToReal(f(x)) + 1), patterns=[f(x)])]
 
 
 def n_floor(a):
@@ -317,16 +340,48 @@ class Arr:
         self.name = name
         self.intdtype = intdtype  # None | z3 Bool: array has an integer dtype (C08)
         self.cnt = None  # number of true entries (bool arrays with identity)
+        self.rowf = None  # 2-D real arrays: k -> z3 Array(Int,Real) term denoting row k ("point")
+        self.pt = None  # 1-D real arrays: z3 Array(Int,Real) term denoting the whole vector
 
     def elem(self, *idx):
         idx = [z3.IntVal(i) if isinstance(i, int) else i for i in idx]
         return self._elem(*idx)
 
+    def row(self, k):
+        """Row k as a z3 Array(Int, Real) term (value identity of points)."""
+        if self.ndim == 2:
+            if self.rowf is not None:
+                return self.rowf(k)
+            j = z3.Int("rowj")
+            return z3.Lambda([j], _real(self.elem(k, j).r))
+        if self.ndim == 1:
+            if self.pt is not None:
+                return self.pt
+            j = z3.Int("rowj")
+            return z3.Lambda([j], _real(self.elem(j).r))
+        raise ValueError("row of 0-d array")
+
     def size(self):
-        s = z3.IntVal(1)
-        for d in self.shape:
-            s = s * d
-        return z3.simplify(s)
+        """Number of elements.  Products of two symbolic dims are abstracted by a fresh integer with the
+        linear facts that matter (sign, zero test, bounds) to keep queries out of nonlinear arithmetic."""
+        if getattr(self, "_size", None) is not None:
+            return self._size
+        lits = [z3.simplify(d) for d in self.shape]
+        sym = [d for d in lits if not z3.is_int_value(d)]
+        k = 1
+        for d in lits:
+            if z3.is_int_value(d):
+                k *= d.as_long()
+        if len(sym) == 0:
+            self._size = z3.IntVal(k)
+        elif len(sym) == 1:
+            self._size = z3.simplify(sym[0] * k)
+        else:
+            c = ctx()
+            sz = z3.Int(c.fresh("size"))
+            c.add_fact(z3.And(sz >= 0, (sz == 0) == z3.Or(*[d == 0 for d in self.shape]), *[z3.Implies(d2 >= 1, sz >= d1) for d1 in sym for d2 in sym if d1 is not d2]), defines=[str(sz)])
+            self._size = sz
+        return self._size
 
     def in_range(self, *idx):
         return z3.And(*[z3.And(i >= 0, i < d) for i, d in zip(idx, self.shape)]) if idx else z3.BoolVal(True)
@@ -347,14 +402,31 @@ def arr_fresh(name, ndim, shape, dtype="num", ext=False, sort="real"):
         r = Arr(ndim, shape, lambda *i: f(*i), "bool", name)
         r.cnt = z3.Int("cnt!" + name)
         return r
+    if not ext and sort != "int" and ndim in (1, 2):
+        PT = z3.ArraySort(z3.IntSort(), z3.RealSort())
+        if ndim == 2:
+            rf = c.uf(name, z3.IntSort(), PT)
+            r = Arr(2, shape, lambda i, j: N(z3.Select(rf(i), j)), "num", name)
+            r.rowf = lambda k: rf(k)
+            return r
+        p = z3.Const(name, PT)
+        r = Arr(1, shape, lambda j: N(z3.Select(p, j)), "num", name)
+        r.pt = p
+        return r
     f = c.uf(name, *([z3.IntSort()] * ndim + [z3.IntSort() if sort == "int" else z3.RealSort()]))
     if ext:
         g = c.uf(name + "!tag", *([z3.IntSort()] * (ndim + 1)))
+        hint = ext if ext in ("lo", "hi") else None
 
         def el(*i):
             t = g(*i)
-            c.add_fact(z3.And(t >= 0, t <= 3), key=("tagr", name, tuple(str(x) for x in i)))
-            return N(f(*i), t)
+            if hint == "lo":
+                c.add_fact(z3.Or(t == FIN, t == NINF), key=("tagr", name, tuple(str(x) for x in i)))
+            elif hint == "hi":
+                c.add_fact(z3.Or(t == FIN, t == PINF), key=("tagr", name, tuple(str(x) for x in i)))
+            else:
+                c.add_fact(z3.And(t >= 0, t <= 3), key=("tagr", name, tuple(str(x) for x in i)))
+            return N(f(*i), t, hint)
 
         return Arr(ndim, shape, el, "num", name)
     return Arr(ndim, shape, lambda *i: N(f(*i)), "num", name)
@@ -370,7 +442,10 @@ def arr_promote(a, ndim):
     if a.ndim == ndim:
         return a
     k = ndim - a.ndim
-    return Arr(ndim, (z3.IntVal(1),) * k + a.shape, lambda *i: a.elem(*i[k:]), a.dtype, a.name, a.intdtype)
+    r = Arr(ndim, (z3.IntVal(1),) * k + a.shape, lambda *i: a.elem(*i[k:]), a.dtype, a.name, a.intdtype)
+    if a.ndim == 1 and ndim == 2 and a.dtype == "num":
+        r.rowf = lambda kk: a.row(None)
+    return r
 
 
 def bshape(a, b):
@@ -547,10 +622,12 @@ class Val:
         if self.arr is not None:
             return self.arr
         if self.poly is not None:
-            spec = ctx().types.get(self.poly)
-            if spec and spec.get("arr"):
-                self.arr = spec["arr"](self.poly)
-                return self.arr
+            mk = getattr(ctx(), "make_arr", None)
+            if mk is not None:
+                a = mk(self.poly)
+                if a is not None:
+                    self.arr = a
+                    return a
         return None
 
     def get_str(self):
@@ -600,6 +677,14 @@ def _facet(v, f):
     return None
 
 
+def _native(v, f):
+    if getattr(v, f) is not None:
+        return True
+    if f == "num" and v.boo is not None and v.arr is None:
+        return False
+    return False
+
+
 def _arr_ite(c, aa, ba):
     if aa is ba:
         return aa
@@ -617,6 +702,10 @@ def _arr_ite(c, aa, ba):
     r = Arr(aa.ndim, shp, el, aa.dtype, intdtype=idt)
     if aa.cnt is not None and ba.cnt is not None:
         r.cnt = z3.If(c, aa.cnt, ba.cnt)
+    if aa.dtype == "num" and aa.ndim == 2 and (aa.rowf is not None or ba.rowf is not None):
+        r.rowf = lambda k: z3.If(c, aa.row(k), ba.row(k))
+    if aa.dtype == "num" and aa.ndim == 1 and (aa.pt is not None or ba.pt is not None):
+        r.pt = z3.If(c, aa.row(None), ba.row(None))
     return r
 
 
@@ -631,8 +720,26 @@ def val_ite(c, a, b):
     r = Val()
     nt = z3.simplify(z3.If(c, a.none_term(), b.none_term()))
     r.none = None if z3.is_false(nt) else nt
-    for f in ("num", "boo", "arr", "tup", "s"):
+    for f in ("arr", "num", "boo", "tup", "s"):
+        na_, nb_ = _native(a, f), _native(b, f)
+        if not na_ and not nb_:
+            continue
+        if f in ("num", "boo") and r.arr is not None:
+            continue
         xa, xb = _facet(a, f), _facet(b, f)
+        if f == "arr" and (xa is None) != (xb is None):
+            # array on one side, an opaque (unmodelled) value on the other: the opaque side is an unknown array
+            # of the same rank (fresh contents and leading dimension) - recorded as an opaque site
+            x, other = (xb, a) if xa is None else (xa, b)
+            if isinstance(x, Arr) and other.poly is not None and other.arr is None and other.tup is None and x.ndim in (1, 2):
+                d0 = z3.Int(ctx().fresh("udim"))
+                ctx().add_fact(d0 >= 0)
+                u = arr_fresh(ctx().fresh("uarr"), x.ndim, (d0,) + tuple(x.shape[1:]), x.dtype)
+                ctx().note("opaque-array-merge", "?", other.poly)
+                if xa is None:
+                    xa = u
+                else:
+                    xb = u
         if xa is None or xb is None or (xa is _PH and xb is _PH):
             continue
         if xa is _PH:
@@ -652,6 +759,12 @@ def val_ite(c, a, b):
                 r.tup = [val_ite(c, x, y) for x, y in zip(xa, xb)]
     if r.num is not None and r.boo is not None and (a.boo is None or b.boo is None):
         r.boo = None
+    if r.num is None and r.arr is None:
+        # scalar on one side, (1-element) array on the other: T2 identifies them
+        sa = a.num is not None or (a.arr is not None and a.arr.dtype == "num")
+        sb = b.num is not None or (b.arr is not None and b.arr.dtype == "num")
+        if sa and sb and (a.num is not None or b.num is not None):
+            r.num = n_ite(c, a.get_num(), b.get_num())
     if a.ref is not None and a.ref == b.ref:
         r.ref = a.ref
     elif a.ref is not None and _pure_none(b):
